@@ -1,12 +1,16 @@
 package main
 
 import (
+	"bufio"
+	"fmt"
+	"os"
 	"strings"
 
 	"github.com/mmcloughlin/avo/ir"
 	"github.com/mmcloughlin/avo/operand"
 	"github.com/mmcloughlin/avo/pass"
 	"github.com/mmcloughlin/avo/reg"
+	"github.com/mmcloughlin/avo/x86"
 )
 
 func classifyAllocErr(err error, panicked bool) string {
@@ -29,28 +33,59 @@ func classifyAllocErr(err error, panicked bool) string {
 	return "other:" + strings.ReplaceAll(msg, " ", "_")
 }
 
-// regRoles gives, in Registers() order, "1" for a direct register operand and "0" for an address register.
-func regRoles(i *ir.Instruction) []string {
-	var roles []string
-	for _, op := range i.Operands {
-		switch v := op.(type) {
-		case reg.Register:
-			roles = append(roles, "1")
-		case operand.Mem:
-			for range operand.Registers(v) {
-				roles = append(roles, "0")
-			}
+// ---------------------------------------------------------------------------
+// The registers of an instruction by the harness's OWN traversal of the operand values (a register operand is
+// itself; a memory operand contributes its base and its index register, whatever kind the index has).  Nothing
+// below asks avo which registers an operand or an instruction mentions: operand.Registers / Instruction.Registers
+// are implementation under test and are judged against this traversal by `accept-regs`.
+// ---------------------------------------------------------------------------
+
+type c01RoleReg struct {
+	r      reg.Register
+	direct bool // true: register operand; false: address register of a memory operand
+}
+
+func c01OpRegs(op operand.Op) []c01RoleReg {
+	switch v := op.(type) {
+	case reg.Register:
+		if v == nil {
+			return nil
+		}
+		return []c01RoleReg{{v, true}}
+	case operand.Mem:
+		var rs []c01RoleReg
+		if v.Base != nil {
+			rs = append(rs, c01RoleReg{v.Base, false})
+		}
+		if v.Index != nil {
+			rs = append(rs, c01RoleReg{v.Index, false})
+		}
+		return rs
+	case *operand.Mem:
+		if v != nil {
+			return c01OpRegs(*v)
 		}
 	}
-	return roles
+	return nil
+}
+
+func c01OpsRegs(ops []operand.Op) []c01RoleReg {
+	var rs []c01RoleReg
+	for _, op := range ops {
+		rs = append(rs, c01OpRegs(op)...)
+	}
+	return rs
+}
+
+func c01EncRole(rs []c01RoleReg) string {
+	parts := []string{itoa(len(rs))}
+	for _, x := range rs {
+		parts = append(parts, encReg(x.r), b01(x.direct))
+	}
+	return strings.Join(parts, " ")
 }
 
 func encAllocation(a reg.Allocation) string {
-	ms := reg.MaskSet{}
-	for v, p := range a {
-		ms[v] = uint16(0) // placeholder to reuse sorting
-		_ = p
-	}
 	ids := make([]int, 0, len(a))
 	for v := range a {
 		ids = append(ids, int(v))
@@ -71,18 +106,25 @@ func sortInts(xs []int) {
 	}
 }
 
+type c01Line struct{ req, resp string }
+
 // allocCase holds everything captured around the real allocation passes.
 type allocCase struct {
-	allocReq  string // alloc request body
+	allocReq  string // `alloc` request body: the exact model of the allocator (informational stream)
 	checkReq  string // accept-alloc request body (use/def/succ/liveIn/liveOut)
-	outcome   string // "ok k (v p)*" or "err class"
+	outcome   string // "ok k (v p)*" or "err" / "err panic"
 	bindReq   string // accept-bind body (only when ok)
 	encReq    string // accept-enc body (only when ok)
+	regsReq   string // accept-regs body
 	nVirt     int
 	entryVirt bool
 	errClass  string
-	useDefs   []string // accept-usedef lines: the instruction's declared use/def vs the form's operand actions
+	pre       []c01Line // accept-cfg / accept-usedef / accept-stage lines
+	nIOPairs  int
+	orig      []c01Snapshot // per instruction: registers of operands / inputs / outputs before allocation (own traversal)
 }
+
+type c01Snapshot struct{ ops, ins, outs []c01RoleReg }
 
 // c01UseDefDB, when set, makes runAllocPipeline cross-check the use/def sets the allocator relies on against the
 // read/write specification derived from the form table's operand actions (C02's instruction-level acceptor):
@@ -90,13 +132,38 @@ type allocCase struct {
 var c01UseDefDB *formsDB
 var c01UseDefRng *rng
 
-func runAllocPipeline(fn *ir.Function) (c allocCase, ok bool) {
-	if !prepLiveness(fn) {
-		return c, false
-	}
-	if c01UseDefDB != nil {
-		c.useDefs = append(c.useDefs, "accept-cfg "+encNodes(fn)+" => "+encGraph(fn))
+func c01Stage(stage, outcome string) c01Line {
+	return c01Line{"accept-stage " + stage + " " + outcome, "ok"}
+}
+
+// runAllocPipeline drives the real passes one by one.  ok=false: the function was rejected with an ERROR before
+// allocation (counted by the caller under `why`); a PANIC anywhere is reported as a failing `accept-stage` line.
+func c01RunPipeline(fn *ir.Function) (c allocCase, ok bool, why string) {
+	err, panicked := safely(func() error {
+		if err := pass.LabelTarget(fn); err != nil {
+			return err
+		}
+		if err := pass.CFG(fn); err != nil {
+			return err
+		}
 		for _, i := range fn.Instructions() {
+			if err := pass.ZeroExtend32BitOutputs(i); err != nil {
+				return err
+			}
+		}
+		return nil
+	})
+	if panicked {
+		c.pre = append(c.pre, c01Stage("prepare", "panic"))
+		return c, true, ""
+	}
+	if err != nil {
+		return c, false, "cfg_rejected"
+	}
+	is := fn.Instructions()
+	if c01UseDefDB != nil {
+		c.pre = append(c.pre, c01Line{"accept-cfg " + encNodes(fn) + " => " + encGraph(fn), "ok"})
+		for _, i := range is {
 			m := matchedForm(c01UseDefDB, i.Opcode, i.Suffixes, i.Operands)
 			if m == nil {
 				continue
@@ -106,36 +173,42 @@ func runAllocPipeline(fn *ir.Function) (c allocCase, ok bool) {
 			}
 			var in, out []reg.Register
 			if _, p := safely(func() error { in, out = i.InputRegisters(), i.OutputRegisters(); return nil }); p {
+				c.pre = append(c.pre, c01Stage("usedef", "panic"))
 				continue
 			}
-			c.useDefs = append(c.useDefs, "accept-usedef "+encUseDef(m, i.Operands)+" => "+
-				encMaskSet(reg.NewMaskSetFromRegisters(in))+" "+encMaskSet(reg.NewMaskSetFromRegisters(out)))
+			c.pre = append(c.pre, c01Line{"accept-usedef " + encUseDef(m, i.Operands) + " => " +
+				encMaskSet(reg.NewMaskSetFromRegisters(in)) + " " + encMaskSet(reg.NewMaskSetFromRegisters(out)), "ok"})
 		}
 	}
-	if err, _ := safely(func() error { return pass.Liveness(fn) }); err != nil {
-		return c, false
+	if err, panicked := safely(func() error { return pass.Liveness(fn) }); panicked {
+		c.pre = append(c.pre, c01Stage("liveness", "panic"))
+		return c, true, ""
+	} else if err != nil {
+		return c, false, "liveness_error"
 	}
 	idx := instrIndex(fn)
-	is := fn.Instructions()
 	a := []string{itoa(len(is))}
 	ck := []string{itoa(len(is))}
-	orig := make([][]reg.Register, len(is))
+	rg := []string{itoa(len(is))}
+	orig := make([]c01Snapshot, len(is))
+	c.orig = orig
 	virt := map[reg.ID]bool{}
 	for k, i := range is {
-		rs := i.Registers()
-		orig[k] = rs
-		for _, r := range rs {
-			if r.ID().IsVirtual() {
-				virt[r.ID()] = true
+		own := c01OpsRegs(i.Operands)
+		orig[k] = c01Snapshot{own, c01OpsRegs(i.Inputs), c01OpsRegs(i.Outputs)}
+		for _, x := range own {
+			if x.r.ID().IsVirtual() {
+				virt[x.r.ID()] = true
 			}
 		}
-		roles := regRoles(i)
-		a = append(a, itoa(len(rs)))
-		for j, r := range rs {
-			a = append(a, encReg(r), roles[j])
+		var impl, uses, defs []reg.Register
+		if _, p := safely(func() error { impl, uses, defs = i.Registers(), i.InputRegisters(), i.OutputRegisters(); return nil }); p {
+			c.pre = append(c.pre, c01Stage("registers", "panic"))
+			return c, true, ""
 		}
-		a = append(a, encRegs(i.OutputRegisters()), encMaskSet(i.LiveOut))
-		ck = append(ck, encRegs(i.InputRegisters()), encRegs(i.OutputRegisters()), itoa(len(i.Succ)))
+		rg = append(rg, c01EncRole(own), encRegs(impl), encRegs(uses))
+		a = append(a, c01EncRole(own), encRegs(defs), encMaskSet(i.LiveOut))
+		ck = append(ck, encRegs(uses), encRegs(defs), itoa(len(i.Succ)))
 		for _, s := range i.Succ {
 			if s == nil {
 				ck = append(ck, "-1")
@@ -145,6 +218,7 @@ func runAllocPipeline(fn *ir.Function) (c allocCase, ok bool) {
 		}
 		ck = append(ck, encMaskSet(i.LiveIn), encMaskSet(i.LiveOut))
 	}
+	c.regsReq = strings.Join(rg, " ")
 	c.allocReq = strings.Join(a, " ")
 	c.checkReq = strings.Join(ck, " ")
 	c.nVirt = len(virt)
@@ -155,7 +229,7 @@ func runAllocPipeline(fn *ir.Function) (c allocCase, ok bool) {
 			}
 		}
 	}
-	err, panicked := safely(func() error {
+	err, panicked = safely(func() error {
 		if err := pass.AllocateRegisters(fn); err != nil {
 			return err
 		}
@@ -172,29 +246,125 @@ func runAllocPipeline(fn *ir.Function) (c allocCase, ok bool) {
 		} else {
 			c.outcome = "err"
 		}
-		return c, true
+		return c, true, ""
 	}
 	c.outcome = encAllocation(fn.Allocation)
+	var shape []c01Line
+	c.bindReq, c.encReq, c.nIOPairs, shape = c01BindReqs(orig, is, "bind-shape")
+	c.pre = append(c.pre, shape...)
+	return c, true, ""
+}
+
+// c01BindReqs pairs, instruction by instruction, the registers found before allocation (orig) with those found now
+// in the operands, the declared inputs and the declared outputs of `is` (own traversal on both sides).
+func c01BindReqs(orig []c01Snapshot, is []*ir.Instruction, stage string) (bindReq, encReq string, nIO int, shape []c01Line) {
 	b := []string{itoa(len(is))}
 	e := []string{itoa(len(is))}
 	for k, i := range is {
-		rs := i.Registers()
-		if len(rs) != len(orig[k]) {
+		ops, ins, outs := c01OpsRegs(i.Operands), c01OpsRegs(i.Inputs), c01OpsRegs(i.Outputs)
+		if len(ops) != len(orig[k].ops) || len(ins) != len(orig[k].ins) || len(outs) != len(orig[k].outs) {
+			// binding must not add or drop registers of an operand
+			shape = append(shape, c01Stage(stage, fmt.Sprintf("changed:instr=%d", k)))
 			b = append(b, "0")
 			e = append(e, "0")
 			continue
 		}
-		roles := regRoles(i)
-		b = append(b, itoa(len(rs)))
-		e = append(e, itoa(len(rs)))
-		for j := range rs {
-			b = append(b, encReg(orig[k][j]), encReg(rs[j]))
-			e = append(e, encReg(orig[k][j]), encReg(rs[j]), roles[j])
+		b = append(b, itoa(len(ops)+len(ins)+len(outs)))
+		e = append(e, itoa(len(ops)))
+		for j := range ops {
+			b = append(b, encReg(orig[k].ops[j].r), encReg(ops[j].r))
+			e = append(e, encReg(orig[k].ops[j].r), encReg(ops[j].r), b01(ops[j].direct))
+		}
+		// the declared inputs and outputs are bound as well (later passes and the printer's users read them)
+		for j := range ins {
+			b = append(b, encReg(orig[k].ins[j].r), encReg(ins[j].r))
+		}
+		for j := range outs {
+			b = append(b, encReg(orig[k].outs[j].r), encReg(outs[j].r))
+		}
+		nIO += len(ins) + len(outs)
+	}
+	return strings.Join(b, " "), strings.Join(e, " "), nIO, shape
+}
+
+// c01Twin sends an identical copy of the function through the ENTRY POINT pass.Compile (whole pass list, in the
+// library's order) and judges what comes out against the facts established on the pass-by-pass run `c`:
+// Compile's allocation must be valid for the (accepted) liveness of the original function, and every register
+// found in the compiled instructions must be bound as C03 demands.  A reordered, dropped or short-circuited pass
+// in Compile is thereby visible to the acceptors, not only to the CPU run of c01x.
+func c01Twin(c allocCase, twin *ir.Function, stats map[string]int) (lines []c01Line) {
+	before := twin.Instructions()
+	if len(before) != len(c.orig) {
+		stats["twin_mismatch"]++
+		return nil
+	}
+	file := ir.NewFile()
+	file.AddSection(twin)
+	err, panicked := safely(func() error { return pass.Compile.Execute(file) })
+	if panicked {
+		return []c01Line{c01Stage("compile", "panic")}
+	}
+	pbp := strings.HasPrefix(c.outcome, "ok")
+	if err != nil {
+		stats["compile:err"]++
+		if pbp {
+			stats["compile_differs_from_pass_by_pass"]++ // informational: an error is always allowed
+		}
+		return nil
+	}
+	stats["compile:ok"]++
+	if !pbp {
+		stats["compile_differs_from_pass_by_pass"]++
+	}
+	out := encAllocation(twin.Allocation)
+	lines = append(lines, c01Line{"accept-alloc " + c.checkReq + " => " + out, "ok"})
+	bindReq, encReq, _, shape := c01BindReqs(c.orig, before, "compile-shape")
+	lines = append(lines, shape...)
+	lines = append(lines, c01Line{"accept-bind " + bindReq + " => " + strings.TrimPrefix(out, "ok "), "ok"})
+	lines = append(lines, c01Line{"accept-enc " + encReq, "ok"})
+	return lines
+}
+
+// runAllocPipeline is the two-result form used by other properties' harnesses (C15): ok=false when the function did
+// not get as far as allocation.
+func runAllocPipeline(fn *ir.Function) (allocCase, bool) {
+	c, ok, _ := c01RunPipeline(fn)
+	return c, ok && c.checkReq != ""
+}
+
+// c01Staircase builds a function whose liveness needs `depth`+1 sweeps of the (reverse-order, in-place) iteration:
+// the value `v` is read once near the top; region k ends in a conditional jump back to the START of region k-1, so
+// that `v` becomes live in region k only one sweep after it became live in region k-1.  Every region defines and
+// reads a temporary of its own, which therefore must not share v's storage.  An analysis that stops early leaves a
+// set that is not a post-fixpoint (and may hand v's register to a temporary).
+func c01Staircase(r *rng, depth int) *ir.Function {
+	col := reg.NewCollection()
+	fn := ir.NewFunction("stair")
+	add := func(op string, ops ...operand.Op) {
+		if inst, err := x86.VerifBuild(op, nil, ops); err == nil && inst != nil {
+			fn.AddInstruction(inst)
 		}
 	}
-	c.bindReq = strings.Join(b, " ")
-	c.encReq = strings.Join(e, " ")
-	return c, true
+	v, acc := col.GP64(), col.GP64()
+	add("MOVQ", operand.U64(r.u64()), v)
+	add("MOVQ", operand.U64(1), acc)
+	fn.AddLabel("s0")
+	add("NOP")
+	add("ADDQ", v, acc)
+	for k := 1; k <= depth; k++ {
+		fn.AddLabel(ir.Label(fmt.Sprintf("s%d", k)))
+		add("NOP")
+		for n := 1 + r.intn(3); n > 0; n-- {
+			t := col.GP64()
+			add("MOVQ", operand.U64(uint64(k)), t)
+			add(pick(r, []string{"ADDQ", "XORQ", "SUBQ"}), t, acc)
+		}
+		add("CMPQ", acc, operand.U32(uint32(r.intn(1000))))
+		add(pick(r, []string{"JNE", "JEQ", "JLT", "JCS"}), operand.LabelRef(fmt.Sprintf("s%d", k-1)))
+	}
+	add("MOVQ", acc, operand.NewParamAddr("x", 0))
+	add("RET")
+	return fn
 }
 
 func allocGenCfg(r *rng, tier string) genCfg {
@@ -219,8 +389,21 @@ func allocGenCfg(r *rng, tier string) genCfg {
 	return cfg
 }
 
+// c01GenCfg: allocGenCfg plus a stream of gather / scatter and other memory-heavy forms (vector index registers
+// and GP base registers next to vector pressure, four-operand forms).
+func c01GenCfg(r *rng, tier string) genCfg {
+	cfg := allocGenCfg(r, tier)
+	if r.chance(1, 7) {
+		cfg.nVec, cfg.nK, cfg.nGP = 2+r.intn(34), 1+r.intn(6), 1+r.intn(6)
+		cfg.pressureTail = r.chance(2, 3)
+		cfg.opcodes = []string{"VGATHERDPD", "VPGATHERDD", "VPGATHERQQ", "VGATHERQPS", "VPSCATTERDD", "VSCATTERDPD", "VPGATHERDQ",
+			"VMOVDQU64", "VPADDD", "VPXORD", "VPADDQ", "LEAQ", "MOVQ", "ADDQ", "KMOVQ", "KORQ", "VPTERNLOGD", "VFMADD231PD", "VPBLENDMD"}
+	}
+	return cfg
+}
+
 func init() {
-	register("c01", "register allocation on generated functions: model comparison + acceptors (C01, C03)", func(args []string) error {
+	register("c01", "register allocation on generated functions: acceptors + informational model comparison (C01, C03)", func(args []string) error {
 		f := newStdFlags("c01")
 		if err := f.fs.Parse(args); err != nil {
 			return err
@@ -234,26 +417,69 @@ func init() {
 			return err
 		}
 		defer o.close()
+		// informational stream: the exact allocation of the implementation next to the request for the exact model.
+		// Which colour is chosen is NOT pinned by the property, so these lines are never part of the verdict; the
+		// check reports the agreement rate.
+		var infoOps, infoImpl *bufio.Writer
+		if fo, err := os.Create(*f.ops + ".info"); err == nil {
+			defer fo.Close()
+			infoOps = bufio.NewWriterSize(fo, 1<<20)
+			defer infoOps.Flush()
+		}
+		if fi, err := os.Create(*f.impl + ".info"); err == nil {
+			defer fi.Close()
+			infoImpl = bufio.NewWriterSize(fi, 1<<20)
+			defer infoImpl.Flush()
+		}
 		r := newRng(*f.seed)
 		stats := map[string]int{}
 		c01UseDefDB, c01UseDefRng = db, r.fork()
 		for k := 0; k < *f.n; k++ {
-			g := newFgen(r.fork(), db, allocGenCfg(r, *f.tier))
-			fn := g.generate()
-			c, ok := runAllocPipeline(fn)
+			// the shape is drawn from r; the function itself from a forked stream, so that an identical twin can be
+			// generated once more for the pass.Compile entry point
+			var build func(g *rng) *ir.Function
+			if k%16 == 7 {
+				depth := 2 + r.intn(11)
+				if *f.tier == "thorough" && r.chance(1, 4) {
+					depth = 12 + r.intn(40)
+				}
+				build = func(g *rng) *ir.Function { return c01Staircase(g, depth) }
+				stats["staircase"]++
+				if depth >= 6 {
+					stats["staircase_depth_ge6"]++
+				}
+			} else {
+				cfg := c01GenCfg(r, *f.tier)
+				build = func(g *rng) *ir.Function { return newFgen(g, db, cfg).generate() }
+			}
+			gs := r.u64()
+			fn := build(&rng{s: gs})
+			c, ok, why := c01RunPipeline(fn)
 			if !ok {
-				stats["cfg_rejected"]++
+				stats[why]++
 				continue
 			}
-			for _, l := range c.useDefs {
-				o.emit(l, "ok")
-				stats["usedef_crosschecks"]++
+			for _, l := range c.pre {
+				o.emit(l.req, l.resp)
+				switch {
+				case strings.HasPrefix(l.req, "accept-stage"):
+					stats["stage_failures"]++
+				case strings.HasPrefix(l.req, "accept-usedef"):
+					stats["usedef_crosschecks"]++
+				}
+			}
+			if c.checkReq == "" {
+				continue // a stage panicked: reported above
 			}
 			stats["functions"]++
 			if c.errClass != "" {
 				stats["outcome:err_"+c.errClass]++
 			} else {
-				stats["outcome:"+strings.Join(strings.Fields(c.outcome)[:min(2, len(strings.Fields(c.outcome)))], "_")]++
+				nv := strings.Fields(c.outcome)[1]
+				if len(nv) > 1 {
+					nv = nv[:1] + "x"
+				}
+				stats["outcome:ok_virtuals_"+nv]++
 			}
 			if strings.HasPrefix(c.outcome, "ok") {
 				stats["outcome:ok"]++
@@ -262,11 +488,25 @@ func init() {
 			if c.entryVirt {
 				stats["virtual_live_at_entry"]++
 			}
-			o.emit("alloc "+c.allocReq, c.outcome)
+			o.emit("accept-regs "+c.regsReq, "ok")
 			o.emit("accept-alloc "+c.checkReq+" => "+c.outcome, "ok")
+			if infoOps != nil && infoImpl != nil {
+				infoOps.WriteString("alloc " + c.allocReq + "\n")
+				infoImpl.WriteString(c.outcome + "\n")
+			}
 			if c.bindReq != "" {
 				o.emit("accept-bind "+c.bindReq+" => "+strings.TrimPrefix(c.outcome, "ok "), "ok")
 				o.emit("accept-enc "+c.encReq, "ok")
+				stats["bound_functions"]++
+				stats["bound_input_output_pairs"] += c.nIOPairs
+			}
+			if k%3 == 0 {
+				for _, l := range c01Twin(c, build(&rng{s: gs}), stats) {
+					o.emit(l.req, l.resp)
+					if strings.HasPrefix(l.req, "accept-stage") {
+						stats["stage_failures"]++
+					}
+				}
 			}
 		}
 		return writeJSON(*f.stats, stats)
